@@ -3,6 +3,20 @@
 import glob, json, os, re
 ROOT = os.path.dirname(os.path.dirname(os.path.abspath(__file__)))
 NOTES = {
+ "C01-m9": "rejected but not attributed to C01 at first (too few verbose runs with message-less exceptions in nested schedulers that have successors) -> verbose runs in the families of C01, C10, C12, C13",
+ "C01-m10": "missed at first (every `Job` was given a coroutine object) -> `awtjobs`: `Job(<awaitable that is not a coroutine object>)`",
+ "C03-m9": "rejected but attributed to C14 only at first (awaitable results were already settled) -> `awaitable=2`: results that are pending awaitables",
+ "C05-m9": "missed at first (every job exception derived from Exception) -> `baseexc`",
+ "C06-m10": "missed at first -> `baseexc`",
+ "C08-m9": "rejected but attributed to C14 only at first -> the failing clause of a result mismatch says how the scheduler that gave the job up ended",
+ "C09-m10": "thin at first -> an unfinished requirement that is a forever job is attributed to C09 too",
+ "C10-m9": "thin at first (one metamorphic pair) -> `nested_failure_ties` family; `-by-nested` suffix of the failing clause when the critical failure came out of a critical nested scheduler",
+ "C10-m10": "rejected but attributed to C11 only at first -> the early end of a cancelled nested run is attributed to C10 too (the nested scheduler is over for its parent before its own run is)",
+ "C11-m9": "NOT reported: needs a job whose own body ends in CancelledError without having been cancelled by its scheduler (it awaits a helper task that a sibling cancels); the specification models bodies that return, raise or are cancelled by their scheduler, and every family excludes self-cancelling jobs",
+ "C13-m10": "exit 2 at first (the exception came out of the shutdown() issued before the run and crashed the recorder) -> a shutdown() that raises, hangs or takes time is a recorded event (`late-exc`)",
+ "C15-m10": "rejected but attributed to C19 / C17 only at first -> an edit call that records something else than what was declared is attributed to C15 too (cycle detection is about the declared graph)",
+ "C18-m9": "missed at first (milestones were always lists) -> `keep_only_between` given one-shot iterables",
+ "C04-m9": "detected through the verdict at first; the behaviour it breaks is now modelled (`cout`: a clean-up that fails)",
  "C01-m7": "missed at first (no nested run was cancelled in the one-iteration gap between two waits) -> `between_waits` family: every offset of 0-5 loop iterations on both sides",
  "C03-m7": "rejected but not attributed to C03 at first (the run died on an internal error; it only hangs beside a never-ending forever job) -> `empty_stages` family",
  "C03-m8": "rejected but not attributed to C03 at first (cancellations arrive late; it only hangs when a clean-up waits for a sibling's cancellation) -> `cwait` in the specification, the model families and the harness; `cancel_cliques` family",
